@@ -5,7 +5,7 @@ From Verif Require Import SI.Model Mvcc.ProofsStore Mvcc.ProofsKey Mvcc.ProofsKs
 
 Inductive ktrans (c : cmd) (k : key) (ks : kstate) : kstate -> Prop :=
 | kt_prewrite_fresh ms p s fu ttl mc ao m v cf l' :
-    c = Prewrite ms p s fu ttl mc ao -> In m ms -> m_key m = k -> ks_lock ks = None ->
+    c = Prewrite ms p s fu ttl mc ao -> In m ms -> m_key m = k -> ks_lock ks = None -> m_pess_check m = false ->
     ccv (mkCcv k s s false (m_assert m) false) false ao false (ks_writes ks) = COk v cf ->
     l_start l' = s -> is_pess l' = false ->
     ktrans c k ks (mkKs (Some l') (ks_writes ks))
@@ -31,7 +31,8 @@ Inductive ktrans (c : cmd) (k : key) (ks : kstate) : kstate -> Prop :=
 | kt_relock l l' :
     ks_lock ks = Some l -> l_start l' = l_start l -> l_op l' = l_op l -> l_for_update l' = l_for_update l ->
     ktrans c k ks (mkKs (Some l') (ks_writes ks))
-| kt_gc s e sp : c = GC s e sp -> ktrans c k ks (mkKs (ks_lock ks) (gc_writes sp true (ks_writes ks))).
+| kt_gc s e sp : c = GC s e sp -> ktrans c k ks (mkKs (ks_lock ks) (gc_writes sp true (ks_writes ks)))
+| kt_delrange s e : c = DeleteRange s e -> ktrans c k ks empty_ks.
 
 Lemma is_pess_mop o : op_eqb (mop_lock_op o) LPess = false.
 Proof. destruct o; reflexivity. Qed.
@@ -47,7 +48,7 @@ Proof.
     intros E; inversion E; subst.
     eapply kt_prewrite_pess; try reflexivity; try eassumption; try reflexivity.
     unfold is_pess; cbn [l_op]. apply is_pess_mop.
-  - destruct (m_pess_check m); [discriminate|].
+  - destruct (m_pess_check m) eqn:Epc; [discriminate|].
     destruct (ccv _ false ao false (ks_writes ks)) as [|v cf] eqn:Ec; [discriminate|].
     intros E; inversion E; subst.
     eapply kt_prewrite_fresh; try reflexivity; try eassumption; try reflexivity.
@@ -148,6 +149,9 @@ Proof.
   - destruct H.
   - destruct H as [_ H]. unfold gc_key in H. inversion H; subst. eapply kt_gc; reflexivity.
   - destruct H. - destruct H. - destruct H. - destruct H.
+  - destruct H.
+  - destruct H as [_ H]. subst x. eapply kt_delrange; reflexivity.
+  - destruct H.
 Qed.
 
 (* the step-level form: after a command, key k keeps its state or made one transition *)
